@@ -730,6 +730,14 @@ start:
 		for _, instr := range b.Instrs {
 			ops = instr.Operands(ops[:0])
 			for _, pop := range ops {
+				switch op := (*pop).(type) {
+				case *ir.Builtin, *ir.Function, *ir.Global:
+					// state.get only falls back to these values' defaults
+					// while their number lies beyond the end of the state. Once
+					// a value with a higher number has been recorded they
+					// would read as the identity element, which Merge ignores.
+					entrys.set(op, ValueNilness{Outer: NeverNil})
+				}
 				if op, ok := (*pop).(*ir.Const); ok && typeutil.IsPointerLike(op.Type()) {
 					switch {
 					case op.Value == nil:
